@@ -51,7 +51,7 @@ def construction_result(task: Dict[str, Any], e: "ConstructionRaised") -> Dict[s
          "monitor": "execution", "class": "construction_raised:" + type(o).__name__,
          "detail": f"building {task['env']} from configuration {cfg['id']} raised {type(o).__name__}: {str(o)[:300]}",
          "ops": [], "ops_unminimised": [], "plan": {}}
-    for k in ("kind", "aggregators", "B", "flag", "scan_len"):
+    for k in ("kind", "aggregators", "B", "flag", "wide", "scan_len"):
         if k in task:
             v[k] = task[k]
     return {"task": {k: task[k] for k in ("prop", "env", "shard")} | {"cfg": cfg["id"]}, "runs": 0, "attempted": 0, "steps": 0,
